@@ -1953,3 +1953,53 @@ def sustained_rate_findings(seed, full=False):
                           'search': 'sustained_rate'}))
                     break
     return findings, stats
+
+
+def large_magnitude_findings(seed, full=False):
+    """C14 with parameters whose VALUES are large numbers (time stamps in seconds, frequencies in Hz:
+    x ~ 1.2e9, y ~ 3.7e8) on a bounded box, narrow target (almost everything rejected) and flat target
+    (almost everything accepted): the unbounded adaptive families must keep finite, admissible scales and
+    no step may raise.  (The bounded eigenvector family's stall is the recorded finding.)"""
+    import epsie.proposals as P
+    from epsie.chain import Chain
+    rng = random.Random(seed * 4441 + 7)
+    findings, stats = {}, {'runs': 0, 'steps': 0}
+    X0, Y0 = 1.2e9, 3.7e8
+    box = {'x': (1.1e9, 1.3e9), 'y': (3.0e8, 4.0e8)}
+    fams = {
+        'adaptive_eigenvector': lambda: P.AdaptiveEigenvector(['x', 'y'], adaptation_duration=200),
+        'adaptive_normal': lambda: P.AdaptiveNormal(['x', 'y'], {'x': 2e8, 'y': 1e8}, 200),
+        'at_adaptive_normal': lambda: P.ATAdaptiveNormal(['x', 'y'], 200),
+        'ss_adaptive_normal': lambda: P.SSAdaptiveNormal(['x', 'y'], cov=[1e12, 1e12]),
+    }
+    for fam in (sorted(fams) if full else ['adaptive_eigenvector'] + rng.sample(sorted(set(fams) - {'adaptive_eigenvector'}), 1)):
+        for width in (1e-3, 1e30):
+            def model(x, y, width=width):
+                inbox = box['x'][0] <= x <= box['x'][1] and box['y'][0] <= y <= box['y'][1]
+                return -0.5 * (((x - X0) / width) ** 2 + ((y - Y0) / width) ** 2), (0. if inbox else -numpy.inf)
+            prop = fams[fam]()
+            ch = Chain(['x', 'y'], model, [prop], bit_generator=rng.randrange(1, 10 ** 6))
+            ch.start_position = {'x': X0, 'y': Y0}
+            stats['runs'] += 1
+            for it in range(120 if full else 60):
+                try:
+                    ch.step()
+                except Exception as e:      # noqa: BLE001
+                    tb = traceback.extract_tb(e.__traceback__)
+                    where = [f for f in tb if '/epsie/' in f.filename]
+                    findings.setdefault(
+                        'large-values-raise:' + fam,
+                        ('%s on parameters of magnitude 1e9 (box x in [1.1e9, 1.3e9], y in [3e8, 4e8], target width %g): '
+                         'step %d raised %s: %s (%s)' % (fam, width, it + 1, type(e).__name__, str(e)[:120],
+                                                          ('%s:%d' % (os.path.basename(where[-1].filename), where[-1].lineno)) if where else '?'),
+                         {'family': fam, 'target_width': width, 'iteration': it + 1, 'search': 'large_magnitude'}))
+                    break
+                stats['steps'] += 1
+                p = ch.proposal_dist.proposals[0]
+                vals = [numpy.asarray(getattr(p, a)) for a in ('_std', '_cov', 'eigvals') if getattr(p, a, None) is not None]
+                if not all(numpy.all(numpy.isfinite(v)) for v in vals):
+                    findings.setdefault('large-values-nonfinite-scale:' + fam,
+                                        ('%s on parameters of magnitude 1e9: a scale attribute is not finite after step %d'
+                                         % (fam, it + 1), {'family': fam, 'target_width': width, 'search': 'large_magnitude'}))
+                    break
+    return findings, stats
